@@ -1907,36 +1907,38 @@ class System:
         self._rel_update()
         cdelta = 0.0
         phidx = 0
-        with tqdm(
-            range(int(mult * cap[0])),
-            desc="Battery depletion ({})".format(unit),
-            unit=unit,
-            unit_scale=True,
-            unit_divisor=1000,
-        ) as pbar:
-            while bstate[0] > 0.0 and bstate[1] > cutoff:
-                self._g[pidx]._params["vo"] = bstate[1]
-                self._g[pidx]._params["rs"] = bstate[2]
-                _, i, _, _ = self._solve(phase=phase_list[phidx])
-                if phase_list == [""]:
-                    deltat = (cap[0] / i[pidx]) * 3.6
-                else:
-                    deltat = self._g.attrs["phases"][phase_list[phidx]]
-                bstate = dfunc(deltat, i[pidx])
-                cdelta += (cap[-1] - bstate[0]) * mult
-                pbar.update(int(cdelta))
-                cdelta -= int(cdelta)
-                phidx = (phidx + 1) % len(phase_list)
-                if bstate[0] > 0.0 and bstate[1] > cutoff:
-                    t += [t[-1] + deltat]
-                    cap += [bstate[0]]
-                    volt += [bstate[1]]
-                    rs += [bstate[2]]
-            pbar.total = int(mult * cap[0] - cdelta)
-            pbar.close()
-        # restore source params
-        self._g[pidx]._params["vo"] = vo_org
-        self._g[pidx]._params["rs"] = rs_org
+        try:
+            with tqdm(
+                range(int(mult * cap[0])),
+                desc="Battery depletion ({})".format(unit),
+                unit=unit,
+                unit_scale=True,
+                unit_divisor=1000,
+            ) as pbar:
+                while bstate[0] > 0.0 and bstate[1] > cutoff:
+                    self._g[pidx]._params["vo"] = bstate[1]
+                    self._g[pidx]._params["rs"] = bstate[2]
+                    _, i, _, _ = self._solve(phase=phase_list[phidx])
+                    if phase_list == [""]:
+                        deltat = (cap[0] / i[pidx]) * 3.6
+                    else:
+                        deltat = self._g.attrs["phases"][phase_list[phidx]]
+                    bstate = dfunc(deltat, i[pidx])
+                    cdelta += (cap[-1] - bstate[0]) * mult
+                    pbar.update(int(cdelta))
+                    cdelta -= int(cdelta)
+                    phidx = (phidx + 1) % len(phase_list)
+                    if bstate[0] > 0.0 and bstate[1] > cutoff:
+                        t += [t[-1] + deltat]
+                        cap += [bstate[0]]
+                        volt += [bstate[1]]
+                        rs += [bstate[2]]
+                pbar.total = int(mult * cap[0] - cdelta)
+                pbar.close()
+        finally:
+            # restore source params
+            self._g[pidx]._params["vo"] = vo_org
+            self._g[pidx]._params["rs"] = rs_org
         # result
         res = {}
         res["Time (s)"] = t
